@@ -798,6 +798,7 @@ package gkvlite
 //@   ensures sortedStrs(content(x), off(x), len(x))
 //@   ensures forall i :: off(x) <= i && i < off(x) + len(x) ==> content(x)[i] == old(content(x))[sortperm(old(content(x)), off(x), len(x), i)] && off(x) <= sortperm(old(content(x)), off(x), len(x), i) && sortperm(old(content(x)), off(x), len(x), i) < off(x) + len(x)
 //@   ensures forall j :: off(x) <= j && j < off(x) + len(x) ==> old(content(x))[j] == content(x)[sortpermInv(old(content(x)), off(x), len(x), j)] && off(x) <= sortpermInv(old(content(x)), off(x), len(x), j) && sortpermInv(old(content(x)), off(x), len(x), j) < off(x) + len(x)
+//@   ensures forall i :: off(x) <= i && i < off(x) + len(x) ==> sortpermInv(old(content(x)), off(x), len(x), sortperm(old(content(x)), off(x), len(x), i)) == i
 
 //@ func collNames
 //@   props C12 C05 C02
@@ -806,9 +807,12 @@ package gkvlite
 //@   ensures [C12,C05] sorted: sortedStrs(content(result), off(result), len(result)) && fresh(result)
 //@   ensures [C12] only-names: forall i in result :: has(coll, result[i])
 //@   ensures [C12] all-names: forall k :: has(coll, k) ==> exists i in result :: result[i] == k
+//@   ensures [C12,C05] no-duplicates: forall i in result :: forall j in result :: i != j ==> result[i] != result[j]
 //@   loop 0 modifies mem.Int
 //@   loop 0 invariant fresh(res)
 //@   loop 0 invariant forall i in res :: has(coll, res[i])
+//@   loop 0 invariant only-seen: forall i in res :: seen(res[i])
+//@   loop 0 invariant no-duplicates-so-far: forall i in res :: forall j in res :: i != j ==> res[i] != res[j]
 //@   loop 0 invariant forall k :: seen(k) ==> exists i in res :: res[i] == k
 //@   loop 0 invariant older-arrays-untouched: forall a :: !fresh(a) ==> mem.Int[a] == old(mem.Int[a])
 
@@ -922,6 +926,8 @@ package gkvlite
 //@   inline
 //@   loop 0 modifies rootNodeLoc.refs, rootNodeLoc.root, rootNodeLoc.next, rootNodeLoc.chainedCollection, rootNodeLoc.chainedRootNodeLoc, node.numNodes, node.numBytes, node.next, itemLoc.loc, itemLoc.item, nodeLoc.loc, nodeLoc.node, nodeLoc.next, mem.ptr, G.freeNodes, G.freeNodeLocs, G.freeRootNodeLocs, AllocStats.CurFreeNodes, AllocStats.FreeNodes, AllocStats.CurFreeNodeLocs, AllocStats.FreeNodeLocs, AllocStats.CurFreeRootNodeLocs, AllocStats.FreeRootNodeLocs, ghost net, ghost tvs
 //@   loop 0 invariant -1 <= rangeindex && rangeindex < len(cnames)
+//@   loop 0 invariant [C04,C01,C02] still-pinned: forall j in cnames :: j > rangeindex ==> rootNodeLoc.refs[rnls[cnames[j]]] >= 2
+//@   loop 0 invariant [C04,C01,C02] releasing-a-pin-changes-no-contents: tvs == old(tvs) && rootNodeLoc.root == old(rootNodeLoc.root)
 //@   loop 0 decreases len(cnames) - rangeindex
 
 //@ func (*Store).Flush
@@ -930,6 +936,7 @@ package gkvlite
 //@   requires s != nil && locks == emptyLocks() && s.size >= 0
 //@   requires [C07] open-store: s.coll != nil && deref(s.coll) != nil
 //@   relies registered-handles-are-usable: forall k :: has(deref(s.coll), k) ==> deref(s.coll)[k] != nil && deref(s.coll)[k].rootLock != nil && deref(s.coll)[k].root != nil && deref(s.coll)[k].store == s && deref(s.coll)[k].root.refs >= 1
+//@   relies [C12] distinct-versions: forall a, b {deref(s.coll)[a], deref(s.coll)[b]} :: has(deref(s.coll), a) && has(deref(s.coll), b) && a != b ==> deref(s.coll)[a].root != deref(s.coll)[b].root
 //@   relies root-locks-are-private: forall k :: has(deref(s.coll), k) ==> deref(s.coll)[k].rootLock != ref(freeNodeLock) && deref(s.coll)[k].rootLock != ref(freeNodeLocLock) && deref(s.coll)[k].rootLock != ref(freeRootNodeLocLock)
 //@   modifies itemLoc.loc, nodeLoc.loc, s.size, rootNodeLoc.refs, rootNodeLoc.root, rootNodeLoc.next, rootNodeLoc.chainedCollection, rootNodeLoc.chainedRootNodeLoc, node.numNodes, node.numBytes, node.next, itemLoc.item, nodeLoc.node, nodeLoc.next, mem.ptr, G.freeNodes, G.freeNodeLocs, G.freeRootNodeLocs, AllocStats.CurFreeNodes, AllocStats.FreeNodes, AllocStats.CurFreeNodeLocs, AllocStats.FreeNodeLocs, AllocStats.CurFreeRootNodeLocs, AllocStats.FreeRootNodeLocs, new ploc.Offset, new ploc.Length, new mem.byte, new mem.Int, ghost fbytes, ghost flen, ghost io.fails, ghost io.writes, ghost io.minoff, ghost net, ghost tvs
 //@   ensures [C07] E1: io.fails >= old(io.fails) && (io.fails > old(io.fails) ==> result != nil)
@@ -939,9 +946,11 @@ package gkvlite
 //@   ensures [C09,C03] writes-at-or-beyond-old-size: s.file != nil ==> io.minoff[s.file] >= min(old(io.minoff[s.file]), old(s.size))
 //@   ensures [C09,C03,C07] bytes-below-old-size-unchanged: s.file != nil ==> samePrefix(fbytes[s.file], old(fbytes[s.file]), old(s.size))
 //@   ensures [C09] other-files: forall f :: f != s.file ==> fbytes[f] == old(fbytes[f]) && flen[f] == old(flen[f]) && io.minoff[f] == old(io.minoff[f])
+//@   ensures [C01,C02,C04] flush-changes-no-contents: tvs == old(tvs) && ias == old(ias) && rootNodeLoc.root == old(rootNodeLoc.root)
 //@   ensures [C03,C02,C14,C08,C01] commit-point-is-last: result == nil ==> magicEndAt(fbytes[s.file], s.size) && s.size >= old(s.size) + 46
 //@   loop 0 modifies rootNodeLoc.refs, mapcontent(rnls)
 //@   loop 0 invariant -1 <= rangeindex && rangeindex < len(cnames)
+//@   loop 0 invariant [C04] pins-only-add: (forall r {rootNodeLoc.refs[r]} :: rootNodeLoc.refs[r] >= old(rootNodeLoc.refs)[r]) && (forall j in cnames :: j <= rangeindex ==> rootNodeLoc.refs[coll[cnames[j]].root] >= old(rootNodeLoc.refs)[coll[cnames[j]].root] + 1)
 //@   loop 0 invariant [C05] pinned-prefix: forall j in cnames :: j <= rangeindex ==> has(rnls, cnames[j]) && rnls[cnames[j]] != nil && rnls[cnames[j]] == coll[cnames[j]].root
 //@   loop 0 decreases len(cnames) - rangeindex
 //@   loop 1 modifies itemLoc.loc, nodeLoc.loc, s.size, new ploc.Offset, new ploc.Length, new mem.byte, ghost fbytes, ghost flen, ghost io.fails, ghost io.writes, ghost io.minoff
